@@ -247,6 +247,20 @@ def compare(ctx, term, obj, cont, what, kcls):
             ctx.violate(f"C02/{kind}/{kcls}",
                         f"{what}: item {i} {M.items_of(cont)[i]!r}: got {g}, model {w}; term={term}")
             return None
+    # the other ways of asking the same question: all items at once, and one item at a time (value-kind trees)
+    if term["c"] in ("and", "or", "xor") and what.startswith("tree"):
+        ok, ta = call(obj.test_all, cont)
+        ctx.count("entry:test_all")
+        if not ok or ta is not all(res):
+            ctx.violate(f"C02/test_all/{kcls}", f"{what}: test_all gives {ta!r}, filter().result is {res}; term={term}")
+        if M.kinds(term) <= {"value"}:
+            items = list(cont.values()) if type(cont) is dict else list(cont)
+            for i in range(0, len(items), max(1, len(items) // 6)):
+                ok, t1 = call(obj.test, items[i])
+                ctx.count("entry:test")
+                if not ok or t1 is not res[i]:
+                    ctx.violate(f"C02/test/{kcls}", f"{what}: test({items[i]!r}) gives {t1!r}, filter().result[{i}] is {res[i]}; term={term}")
+                    break
     return res
 
 
